@@ -101,3 +101,28 @@ func H_C12_trans() {
 		vf.Assert(ac == bc, "equal values are not interchangeable")
 	}
 }
+
+// Lemma used by the engine (DESIGN.md section 2.9): Clone / cloneValue / ConvertValue return a value
+// that is bit-identical to their argument and shares no mutable memory with it (Binary data excepted,
+// as documented). The engine defers clones of still-undecided values and treats such a clone as equal
+// to its source; this harness checks that on the real code in every run that relies on it.
+func H_LEM_clone() {
+	tags := uint32(vf.Param("tags", vf.TAll))
+	d := vf.Doc("d", "a", 2, tags, vf.Param("depth", 2))
+	c := Clone(&d)
+	vf.Assert(vf.EqualValues(*c, d), "Clone changed a value")
+	cv, err := ConvertValue(d)
+	vf.Assert(err == nil, "ConvertValue failed on a supported value")
+	vf.Assert(vf.EqualValues(cv, d), "ConvertValue changed a value")
+}
+
+// second half of the lemma: the clone shares no mutable memory with its source (binary payloads are
+// the documented exception and are left out of the domain here)
+func H_LEM_clone_fresh() {
+	tags := uint32(vf.Param("tags", vf.TAll&^vf.TBinary))
+	d := vf.Doc("d", "a", 2, tags, vf.Param("depth", 2))
+	c := Clone(&d)
+	vf.Assert(!vf.Shares(c, &d), "Clone shares memory with its argument")
+	cv, _ := ConvertValue(d)
+	vf.Assert(!vf.Shares(cv, d), "ConvertValue shares memory with its argument")
+}
